@@ -10,7 +10,10 @@ import (
 	"errors"
 	"fmt"
 	"io"
+	"os"
+	"path/filepath"
 	"testing"
+	"time"
 
 	"github.com/semihalev/twig"
 	"pgregory.net/rapid"
@@ -388,3 +391,163 @@ func TestC15Short(t *testing.T) {
 }
 
 func init() { reg("C15.cache", checkC15) }
+
+// ---- file-system loader arm ---------------------------------------------------------------------
+
+type C15FSOp struct {
+	Op   string `json:"op"` // write | remove | load | render | cache | autoreload
+	Name int    `json:"name"`
+	On   bool   `json:"on,omitempty"`
+}
+
+type C15FSCase struct {
+	Ops []C15FSOp `json:"ops"`
+}
+
+// names that differ only after the last dot, in the directory part, or by one character
+var c15FSNames = []string{"a", "a.b", "a.c", "mail.html", "mail.txt", "dir/a", "dir/a.b", "ab"}
+
+func checkC15FS(c C15FSCase) error {
+	_, err := runC15FS(c)
+	return err
+}
+
+func runC15FS(c C15FSCase) (bool, error) {
+	root, err := os.MkdirTemp(workDir(), "c15-")
+	if err != nil {
+		return false, fmt.Errorf("harness: %v", err)
+	}
+	defer os.RemoveAll(root)
+	e := twig.New()
+	e.RegisterLoader(twig.NewFileSystemLoader([]string{root}))
+	type ent struct {
+		version int
+		ts      int64
+	}
+	files := map[string]ent{}
+	cache := map[string]ent{}
+	cacheOn, autoReload := true, false
+	version := 0
+	clock := time.Now().Unix() - 100000
+	nontrivial := false
+	for i, op := range c.Ops {
+		name := c15FSNames[op.Name%len(c15FSNames)]
+		path := filepath.Join(root, name+".twig")
+		switch op.Op {
+		case "cache":
+			e.SetCache(op.On)
+			cacheOn = op.On
+		case "autoreload":
+			e.SetAutoReload(op.On)
+			autoReload = op.On
+		case "write":
+			version++
+			clock += 10
+			os.MkdirAll(filepath.Dir(path), 0o755)
+			if err := os.WriteFile(path, []byte(fmt.Sprintf("v%d", version)), 0o644); err != nil {
+				return false, fmt.Errorf("harness: %v", err)
+			}
+			os.Chtimes(path, time.Unix(clock, 0), time.Unix(clock, 0))
+			files[name] = ent{version, clock}
+		case "remove":
+			os.Remove(path)
+			delete(files, name)
+		case "load", "render":
+			cur, has := files[name]
+			cached, isCached := cache[name]
+			want, notFound := 0, false
+			switch {
+			case !cacheOn || !isCached:
+				if has {
+					want = cur.version
+				} else {
+					notFound = true
+				}
+			case !autoReload:
+				want = cached.version
+			default:
+				if has && cur.ts <= cached.ts {
+					want = cached.version
+				} else if has {
+					want = cur.version
+				} else {
+					notFound = true
+				}
+			}
+			var r Res
+			if op.Op == "render" {
+				r = render(e, name, nil)
+			} else {
+				r = guard(func() (string, error) {
+					t, err := e.Load(name)
+					if err != nil {
+						return "", err
+					}
+					return t.Render(nil)
+				})
+			}
+			desc := fmt.Sprintf("op %d (%s %q; cache=%v autoReload=%v cached=%v on-disk=%v)", i, op.Op, name, cacheOn, autoReload, isCached, has)
+			if r.Panic != "" {
+				return nontrivial, fmt.Errorf("%s panicked: %s", desc, r.Panic)
+			}
+			if len(files) >= 2 {
+				nontrivial = true
+			}
+			if r.Err != "" {
+				if !notFound {
+					return nontrivial, fmt.Errorf("%s failed (%s) but version %d is what the configuration calls for", desc, firstLine(r.Err), want)
+				}
+				if !errors.Is(r.Error(), twig.ErrTemplateNotFound) {
+					return nontrivial, fmt.Errorf("%s: error does not match ErrTemplateNotFound: %s", desc, firstLine(r.Err))
+				}
+				continue
+			}
+			if notFound {
+				return nontrivial, fmt.Errorf("%s returned %s although the file does not exist and nothing valid is cached", desc, q(r.Out))
+			}
+			if r.Out != fmt.Sprintf("v%d", want) {
+				return nontrivial, fmt.Errorf("%s served %s, the configuration calls for v%d (files on disk: %v)", desc, q(r.Out), want, files)
+			}
+			if cacheOn {
+				if !isCached || want != cached.version {
+					cache[name] = ent{want, cur.ts}
+				}
+			}
+		}
+	}
+	return nontrivial, nil
+}
+
+func TestC15Files(t *testing.T) {
+	r := NewRec(t, "C15", "histories of 10-40 operations on an engine with a FileSystemLoader over a temp directory: writes (distinct version markers, strictly increasing mtimes set with os.Chtimes), removals, Load/Render, SetCache, SetAutoReload over 8 names that differ only after the last dot, in the directory part or by one character (a, a.b, a.c, mail.html, mail.txt, dir/a, dir/a.b, ab); oracle: the same cache model; non-trivial = at least two files exist when a name is read; distinct by operation list")
+	defer r.Flush()
+	rapid.Check(t, func(rt *rapid.T) {
+		n := rapid.IntRange(10, 40).Draw(rt, "nops")
+		var c C15FSCase
+		for i := 0; i < n; i++ {
+			op := C15FSOp{Name: rapid.IntRange(0, len(c15FSNames)-1).Draw(rt, "name"), On: rapid.IntRange(0, 3).Draw(rt, "on") != 0}
+			switch k := rapid.IntRange(0, 11).Draw(rt, "kind"); {
+			case k <= 3:
+				op.Op = "write"
+			case k == 4:
+				op.Op = "remove"
+			case k <= 7:
+				op.Op = "load"
+			case k <= 9:
+				op.Op = "render"
+			case k == 10:
+				op.Op = "cache"
+			default:
+				op.Op = "autoreload"
+			}
+			c.Ops = append(c.Ops, op)
+		}
+		nt, err := runC15FS(c)
+		r.Case(fmt.Sprint(c.Ops), nt, c.Ops[:min(8, len(c.Ops))])
+		if err != nil {
+			r.Fail(rt, "C15.fs", c, err)
+		}
+	})
+}
+
+func init() { reg("C15.fs", checkC15FS) }
